@@ -360,6 +360,92 @@ def h_roundtrip(e0: bool, e1: bool, e2: bool, e3: bool, e4: bool, e5: bool, e6: 
     reached()
 
 
+# ---------------------------------------------------------------------------
+# Cross-database references
+
+def h_multidb_refs(x0: bool, x1: bool, x2: bool, x3: bool, y0: bool, y1: bool, y2: bool, y3: bool,
+                   kinds: int, preload: int, storage: str) -> None:
+    """Two databases with independently allocated (hence colliding) oids; nodes a0,a1 in database one and
+    b0,b1 in database two; x/y = cross-database edges a_i->b_j / b_i->a_j.  Loaded through a fresh connection
+    group - with the referring connection's cache empty or already holding its own objects - every
+    cross-database reference leads to the object with that id IN THE NAMED DATABASE, one object per id per
+    connection."""
+    xs = (x0, x1, x2, x3)
+    ys = (y0, y1, y2, y3)
+    pl = choose(preload, 3)            # 0: nothing loaded before following references, 1: own objects loaded, 2: targets loaded first
+    with untraced():
+        from persistent.mapping import PersistentMapping as PM
+        from zverif import multidb
+        from zverif import pobj
+        w = multidb.Multi(storage)
+        try:
+            kind = [(kinds // (3 ** i)) % 3 for i in range(4)]
+
+            def mk(i, nm):
+                if kind[i] == 0:
+                    return PM(name=nm)
+                if kind[i] == 1:
+                    return pobj.PNewArgs(nm)
+                return pobj.PObj(name=nm, data={})
+            A = [mk(0, 'a0'), mk(1, 'a1')]
+            Bn = [mk(2, 'b0'), mk(3, 'b1')]
+            for i in range(2):
+                w.c1.root()['a%d' % i] = A[i]
+                w.c2.root()['b%d' % i] = Bn[i]
+            w.tm.commit()
+            check(all(o._p_jar is w.c1 for o in A) and all(o._p_jar is w.c2 for o in Bn), 'new objects stored in the wrong database')
+
+            def setref(src, name, dst, via):
+                val = ['plain', {'deep': dst}] if via else dst
+                if isinstance(src, PM):
+                    src[name] = val
+                else:
+                    src.data[name] = val
+                    src._p_changed = True
+
+            def get(obj, name):
+                v = obj[name] if isinstance(obj, PM) else obj.data[name]
+                return v[1]['deep'] if isinstance(v, list) else v
+
+            def nameof(obj):
+                return obj['name'] if isinstance(obj, PM) else obj.name
+            edges = []
+            for k in range(4):
+                i, j = divmod(k, 2)
+                if xs[k]:
+                    setref(A[i], 'x%d' % j, Bn[j], (i + j) % 2)
+                    edges.append(('a', i, 'x%d' % j, 'b', j))
+                if ys[k]:
+                    setref(Bn[i], 'y%d' % j, A[j], (i + j + 1) % 2)
+                    edges.append(('b', i, 'y%d' % j, 'a', j))
+            w.tm.commit()
+            note('edges', len(edges))
+            tm, c1, c2 = w.fresh_pair()
+            try:
+                conn = {'a': c1, 'b': c2}
+                orig = {'a': A, 'b': Bn}
+                if pl == 1:
+                    for d in 'ab':
+                        for i in range(2):
+                            nameof(conn[d].root()['%s%d' % (d, i)])
+                for (sd, i, nm, td, j) in (edges if pl != 2 else list(reversed(edges))):
+                    src = conn[sd].root()['%s%d' % (sd, i)]
+                    tgt = get(src, nm)
+                    want = orig[td][j]
+                    check(tgt._p_jar is conn[td], 'cross-database reference leads to an object of another connection / database', sd, i, td, j)
+                    check(tgt._p_oid == want._p_oid, 'cross-database reference leads to an object with a different id', sd, i, td, j)
+                    check(type(tgt) is type(want), 'object reached through a cross-database reference has another class', sd, i, td, j,
+                          type(tgt).__name__, type(want).__name__)
+                    check(nameof(tgt) == '%s%d' % (td, j), 'object reached through a cross-database reference has another state', sd, i, td, j)
+                    check(tgt is conn[td].root()['%s%d' % (td, j)], 'two in-memory objects for one id in one connection (cross-database)', td, j)
+            finally:
+                tm.abort()
+                c1.close()
+        finally:
+            w.close_all()
+    reached()
+
+
 HARNESSES = [
     Harness('referencesf', h_referencesf,
             decides='referencesf / get_refs return exactly the oids of the strong same-database references of a record, in '
@@ -379,6 +465,15 @@ HARNESSES = [
                                                              'ObjectReader.load_persistent/getGhost', 'referencesf'],
             quick=dict(timeout=150, shards=shards(explicit_add=[False, True], storage=['file'], kinds=[0, 13, 21])),
             thorough=dict(timeout=900, shards=shards(explicit_add=[False, True], storage=['file', 'mapping'], kinds=list(range(27))))),
+    Harness('multidb_refs', h_multidb_refs,
+            decides='every cross-database reference (all three reference formats: with class, class-less, inside plain containers) '
+                    'loads as the object with that id in the named database - same class and state, one object per id per connection - '
+                    'whatever the referring connection already holds under the same id',
+            symbolic='8 cross-database adjacency bits (2+2 nodes), cache pre-load selector (3); node kinds are shards',
+            bounds='2 databases with colliding oids, 2 nodes each', oracle='edge list by construction',
+            code=['ObjectWriter.persistent_id (multi-database branches)', 'ObjectReader.load_multi_persistent/load_multi_oid', 'Connection.get_connection'],
+            quick=dict(timeout=150, shards=shards(storage=['mapping'], kinds=[0, 40, 80, 46])),
+            thorough=dict(timeout=900, shards=shards(storage=['mapping', 'file'], kinds=[0, 40, 80, 46, 5, 34, 65, 71]))),
 ]
 
 MANIFEST = dict(
